@@ -49,7 +49,7 @@ def _inode_spans(data):
 class Config:
     def __init__(self, levels=1, z=False, ndisks=2, blocksize=1, hashsize=16, hashkind="murmur3",
                  splits=None, parity_limit=None, contents=None, autosave_at=None, nohidden=False,
-                 rules=(), pool=False, disknames=None, extra_conf=(), tag="", uuid=False, selftest=False):
+                 rules=(), pool=False, disknames=None, extra_conf=(), tag="", uuid=False, selftest=False, splitdirs=False):
         self.levels = levels
         self.z = z
         self.ndisks = ndisks
@@ -66,6 +66,7 @@ class Config:
         self.disknames = list(disknames or ["d%d" % (i + 1) for i in range(ndisks)])
         self.extra_conf = list(extra_conf)
         self.tag = tag
+        self.splitdirs = splitdirs  # split s > 0 of level l lives in its own directory p<l>s<s>/ (another parity disk), not beside split 0
         self.selftest = selftest    # commands run WITHOUT --test-skip-self (the start-up self test changes global raid state)
         self.uuid = uuid        # the first two data disks report a (fake) persistent UUID: the tool then trusts inode numbers
 
@@ -78,7 +79,8 @@ class Config:
         return dict(levels=self.levels, z=self.z, ndisks=self.ndisks, disknames=self.disknames, blocksize=self.blocksize,
                     hashsize=self.hashsize, hashkind=self.hashkind, splits={str(k): v for k, v in self.splits.items()},
                     contents=self.contents, parity_limit=self.parity_limit, autosave_at=self.autosave_at,
-                    nohidden=self.nohidden, rules=self.rules, pool=self.pool, extra_conf=self.extra_conf, tag=self.tag, uuid=getattr(self, "uuid", False), selftest=getattr(self, "selftest", False))
+                    nohidden=self.nohidden, rules=self.rules, pool=self.pool, extra_conf=self.extra_conf, tag=self.tag, uuid=getattr(self, "uuid", False), selftest=getattr(self, "selftest", False),
+                    splitdirs=getattr(self, "splitdirs", False))
 
     @staticmethod
     def from_dict(d):
@@ -105,7 +107,7 @@ class Config:
     def clone(self, **kw):
         c = Config(self.levels, self.z, self.ndisks, self.blocksize, self.hashsize, self.hashkind, self.splits,
                    self.parity_limit, self.contents, self.autosave_at, self.nohidden, self.rules, self.pool,
-                   self.disknames, self.extra_conf, self.tag, getattr(self, "uuid", False), getattr(self, "selftest", False))
+                   self.disknames, self.extra_conf, self.tag, getattr(self, "uuid", False), getattr(self, "selftest", False), getattr(self, "splitdirs", False))
         for k, v in kw.items():
             setattr(c, k, v)
         return c
@@ -221,9 +223,7 @@ class Lab:
         return self.p("etc", "snapraid.conf")
 
     def parity_paths(self, level):
-        n = self.cfg.splits.get(level, 1)
-        base = self.cfg.level_name(level)
-        return [self.p("p%d" % level, base + (".%d" % s if s else "")) for s in range(n)]
+        return self.parity_paths_cfg(self.cfg, level)
 
     def content_paths(self):
         return [self.p(c) for c in self.cfg.contents]
@@ -235,6 +235,8 @@ class Lab:
             os.makedirs(self.p(d), exist_ok=True)
         for l in range(self.cfg.levels):
             os.makedirs(self.p("p%d" % l), exist_ok=True)
+            for pth in self.parity_paths(l):
+                os.makedirs(os.path.dirname(pth), exist_ok=True)
         for c in self.cfg.contents:
             os.makedirs(os.path.dirname(self.p(c)), exist_ok=True)
         with open(self.p("etc", "urandom"), "wb") as f:
@@ -266,6 +268,8 @@ class Lab:
     def parity_paths_cfg(self, cfg, level):
         n = cfg.splits.get(level, 1)
         base = cfg.level_name(level)
+        if getattr(cfg, "splitdirs", False):
+            return [self.p("p%d" % level if s == 0 else "p%ds%d" % (level, s), base + (".%d" % s if s else "")) for s in range(n)]
         return [self.p("p%d" % level, base + (".%d" % s if s else "")) for s in range(n)]
 
     def destroy(self):
@@ -636,11 +640,15 @@ class Lab:
                     v.append(e[3])
 
     # ------------------------------------------------------------------ decoded views
-    def content_bytes(self, idx=0):
-        with open(self.content_paths()[idx], "rb") as f:
+    def content_bytes(self, idx=None):
+        """bytes of content copy idx; default: the first copy that exists (the one the tool would load)"""
+        paths = self.content_paths()
+        if idx is None:
+            idx = next((i for i, p in enumerate(paths) if os.path.isfile(p)), 0)
+        with open(paths[idx], "rb") as f:
             return f.read()
 
-    def content(self, idx=0):
+    def content(self, idx=None):
         return contentmod.decode(self.content_bytes(idx))
 
     def parity_stream(self, level, split_sizes=None):
